@@ -44,6 +44,9 @@ def ingest(wt, prop, letters):
 
 
 def main():
+    if "--help" in sys.argv or "-h" in sys.argv:
+        print(__doc__)
+        return 0
     if "--ingest" in sys.argv:
         a = sys.argv[sys.argv.index("--ingest") + 1:]
         return ingest(a[0], a[1].upper(), a[2:])
